@@ -22,7 +22,7 @@ PKG=$(grep -l . $SRC/notes.md >/dev/null 2>&1; grep -ho "\(utils\|decoders/[a-z]
 place_demo() {
   for f in $DEMOS; do
     pk=$(grep -m1 '^package ' $f | awk '{print $2}' | sed 's/_test$//')
-    for d in utils decoders/netflow decoders/sflow decoders/netflowlegacy decoders/utils producer/proto transport/file transport/kafka format/json cmd/goflow2 metrics; do
+    for d in utils utils/debug decoders/netflow decoders/sflow decoders/netflowlegacy decoders/utils producer/proto producer/raw transport/file transport/kafka transport format/json cmd/goflow2 metrics; do
       if [ -d $W/$d ] && grep -qs "^package $pk\$" $W/$d/*.go; then cp $f $W/$d/; echo "$d"; break; fi
     done
   done | sort -u | head -1
